@@ -366,7 +366,21 @@ def check(run: Run) -> None:
                         for s3 in slot3:
                             if fh_.cfg.has_node(s3) and any(pol and isinstance(a, ast.Compare) and len(a.ops) == 1 and isinstance(a.ops[0], ast.Is) and isinstance(a.left, ast.Name) and a.left.id == s3.targets[0].id and isinstance(a.comparators[0], ast.Constant) and a.comparators[0].value is None for a, pol in Facts(fh_, s3).atoms):
                                 raw_ok = True
-            run.check(_is_filled(nt) or raw_ok, "C07.R2", g_, stmt_of(c), "candidate results carry the normalised call (the raw call only when no definition was found)", f"a candidate result carries {show(nt)[:60]} instead of the normalised call")
+            # "nothing could be typed" is not "no definition was found": where a definition exists its declared arguments are
+            # known, and the record of last resort carries the call normalised against it (the raw call only beside it, for
+            # the case that there is no definition at all)
+            def _leaves(t_):
+                if t_[0] == "ifexp":
+                    return _leaves(t_[2]) + _leaves(t_[3])
+                if t_[0] == "phi":
+                    return [y_ for x_ in t_[1] for y_ in _leaves(x_)]
+                return [t_]
+
+            some_filled = any(_is_filled(x_) for x_ in _leaves(nt))
+            if raw_ok and not _is_filled(nt) and not some_filled:
+                run.fail("C07.R2", g_, stmt_of(c), "when no candidate can be typed the record of last resort carries the call as written, although a definition of the method was found and normalised against: e.coll() for def coll(self, n: int = 3) -> <an annotation that cannot be resolved> stays e.coll() instead of e.coll(3), and keywords stay keywords", "node=<the normalised call of the first candidate> (the raw call only if there is no candidate)", show(nt)[:200], key="normalised call dropped when the return type is unknown")
+            else:
+                run.check(_is_filled(nt) or raw_ok or some_filled, "C07.R2", g_, stmt_of(c), "candidate results carry the normalised call (the raw call only when no definition was found)", f"a candidate result carries {show(nt)[:60]} instead of the normalised call")
 
     # the candidate loop ends at the first fully resolved candidate, whichever way that candidate was resolved: the test that
     # leaves the loop is reached on every pass through the loop body
@@ -699,7 +713,13 @@ def check_patch_back(run: Run, ctx, m, mod: str, rule: str) -> None:
     for c in app:
         tt = strip_sites(fv.term_of(c.func.value))
         ok_app = ok_app or any(a == ("attr", old, "args") for a in unphi_terms(tt))
-    run.check(ok_app, rule, vc, vc.node, "patch-back appends the new positional arguments", "patch-back does not add the filled arguments to the original call")
+    # all of them: a callback may have replaced an argument the user wrote, not only added some behind it
+    whole = stores.get("args")
+    ok_whole = whole is not None and (whole == ("attr", nodep, "args") or (whole[0] == "app" and whole[1] in (("global", "builtins.list"), ("global", "copy.copy")) and whole[2] == (("attr", nodep, "args"),)))
+    if ok_app and not ok_whole:
+        run.fail(rule, vc, vc.node, "patch-back only appends the arguments that were added behind the user's own: an argument the user wrote and a callback replaced (m.scale(1) rewritten to m.scale(99)) keeps its old value when the call is the whole body of a nested lambda - the emitted query does not contain the rewrite the callback returned", "orig_ast.args = list(node.args)", key="patch-back appends instead of copying the arguments")
+    else:
+        run.check(ok_whole, rule, vc, vc.node, "patch-back copies the positional arguments", "patch-back does not copy the processed call's arguments to the original call")
     gv = [c for c in calls_in(vc) if isinstance(c.func, ast.Attribute) and c.func.attr == "generic_visit"]
     run.check(len(gv) == 1, rule, vc, vc.node, "patch-back descends into nested calls", "patch-back does not traverse nested calls")
 
